@@ -18,7 +18,9 @@ interleaving of receptions — a schedule is an arbitrary list of links).
 * `delivered_iff_reach` the set of nodes delivered to at quiescence is schedule independent.
 * `termination` / `quiescence` every schedule has at most `mu` effective receptions and can be
                      completed to a quiescent state.
-* `exactly_once`     the conjunction, in the form of the property statement.
+* `exactly_once`     the conjunction, in the form of the property statement;
+                     `exactly_once_of_connected_overlay` restates the premise as "the overlay of
+                     forwarding sets connects the publisher to every node".
 * `spec_accepts_model` the executable Spec used on the implementation accepts every model trace.
 -/
 namespace C27
@@ -245,6 +247,37 @@ theorem exactly_once : full_statement := by
   exact ⟨fun v hv hne => at_least_once cfg hsrc sched hq v (hreach v hv) hne,
     (at_most_once cfg sched).2, (no_echo cfg sched).1, no_echo_source cfg hp sched⟩
 
+/-- reachable from the publisher along forwarding sets only (the mesh overlay) -/
+inductive MeshReach (cfg : Cfg) : Node → Prop
+  | pub : MeshReach cfg cfg.pub
+  | step {a b : Node} : MeshReach cfg a → b ∈ cfg.fwd a → MeshReach cfg b
+
+/-- the reachability premise in overlay terms: when the publisher sends at least to its own
+forwarding set (`filter_publish_candidates` always includes the mesh and explicit peers), every
+node connected to the publisher through the overlay of forwarding sets is reachable. -/
+theorem reach_of_meshReach (cfg : Cfg) (hpub : ∀ b ∈ cfg.fwd cfg.pub, b ∈ cfg.recips)
+    {v : Node} (h : MeshReach cfg v) : Reach cfg v := by
+  induction h with
+  | pub => exact Reach.pub
+  | @step a b _ hb ih =>
+    refine Reach.step ih ?_
+    unfold Edge edges
+    by_cases hap : a = cfg.pub
+    · rw [if_pos hap]; exact hpub b (hap ▸ hb)
+    · rw [if_neg hap]; exact hb
+
+/-- **The property in overlay terms**: if the overlay of forwarding sets connects the publisher to
+every node and the publisher sends at least to its own forwarding set, then once no copy is in
+flight every other node got the message exactly once and the publisher did not. -/
+theorem exactly_once_of_connected_overlay (cfg : Cfg) (sched : List (Node × Node))
+    (hsrc : sourceOk cfg = true) (hpub : ∀ b ∈ cfg.fwd cfg.pub, b ∈ cfg.recips)
+    (hconn : ∀ v ∈ cfg.nodes, MeshReach cfg v) (hq : (run cfg sched).flight = []) :
+    (∀ v ∈ cfg.nodes, v ≠ cfg.pub → deliveries (run cfg sched) v = 1) ∧
+    deliveries (run cfg sched) cfg.pub = 0 :=
+  ⟨fun v hv hne =>
+      at_least_once cfg hsrc sched hq v (reach_of_meshReach cfg hpub (hconn v hv)) hne,
+    (at_most_once cfg sched).2⟩
+
 /-- **Spec link**: the executable Spec evaluated on the implementation's outputs accepts every
 trace of the model: the per-reception monitor under every schedule, and the quiescence clause in
 every quiescent state. -/
@@ -325,4 +358,5 @@ end C27
 #print axioms C27.termination
 #print axioms C27.quiescence
 #print axioms C27.exactly_once
+#print axioms C27.exactly_once_of_connected_overlay
 #print axioms C27.spec_accepts_model
